@@ -85,8 +85,13 @@ def fault_stage(c, remote):
             'short': [('deliver', -1), ('deliver', 0)],
             'zero': [('deliver', -100), ('deliver', 0)],
             'over': [('deliver', 2), ('deliver', 0)]}[mode]
-    es_mode = rng.choice(['raise-once', 'ok'])
-    script = {'plan': plan, 'es': [('raise', exc)] + [('ok', None)] * 50 if es_mode == 'raise-once' else [('ok', None)],
+    es_mode = rng.choice(['raise-once', 'raise-second', 'raise-second-third', 'raise-alternate', 'ok'])
+    es_plan = {'raise-once': [('raise', exc)] + [('ok', None)] * 50,
+               'raise-second': [('ok', None), ('raise', exc)] + [('ok', None)] * 50,
+               'raise-second-third': [('ok', None), ('raise', exc), ('raise', exc)] + [('ok', None)] * 50,
+               'raise-alternate': [('ok', None), ('raise', exc)],
+               'ok': [('ok', None)]}[es_mode]
+    script = {'plan': plan, 'es': es_plan,
               'suggest_calls': 0, 'es_calls': 0, 'tok': 0}
     fac = make_policy_factory(script)
     case = {'remote': remote, 'mode': mode, 'exception': exc.__name__, 'k': k, 'es_mode': es_mode}
@@ -159,7 +164,8 @@ def fault_stage(c, remote):
         t = act[0]
         es_before = script['es_calls']
         outcomes = []
-        for _ in range(3):
+        n_checks = 5
+        for _ in range(n_checks):
           try:
             r = sv.CheckTrialEarlyStoppingState(vsp.CheckTrialEarlyStoppingStateRequest(trial_name=t.name))
             outcomes.append('ok')
@@ -168,9 +174,16 @@ def fault_stage(c, remote):
         consulted = script['es_calls'] - es_before
         case['es_outcomes'] = outcomes
         case['es_consulted'] = consulted
-        if consulted < 3:
+        if consulted < n_checks:
           c.prop_fail('earlystop-answered-from-abandoned-record',
-                      'after an early-stopping failure later checks were answered without consulting the algorithm (%d of 3 calls reached it; recycle period 0)' % consulted, case)
+                      'after an early-stopping failure later checks were answered without consulting the algorithm (%d of %d calls reached it; recycle period 0)' % (consulted, n_checks), case)
+        try:
+          stored = sv.datastore.get_early_stopping_operation(resources.EarlyStoppingOperationResource(
+              study.name.split('/')[1], study.name.split('/')[3], int(t.name.split('/')[-1])).name)
+          if stored.status == vizier_oss_pb2.EarlyStoppingOperation.Status.ACTIVE:
+            c.prop_fail('earlystop-record-left-active', 'the stored early-stopping record of %s is still ACTIVE (abandoned) after the checks returned' % t.name, case)
+        except custom_errors.NotFoundError:
+          pass
     finally:
       if server is not None:
         server._server.stop(0)  # pylint: disable=protected-access
